@@ -15,10 +15,21 @@ type sut interface {
 }
 
 type gEdge struct {
-	From, To string
+	From, To string // state keys
+	ToObs    string // expected projection of the target state
 	Op       json.RawMessage
 	Res      string
 	covered  bool
+}
+
+// splitState: a state is either its own projection, or {"o": projection, "k": full state}
+func splitState(raw json.RawMessage) (key, obs string) {
+	var ok struct{ O, K json.RawMessage }
+	if json.Unmarshal(raw, &ok) == nil && ok.O != nil && ok.K != nil {
+		return canon(raw), canon(ok.O)
+	}
+	c := canon(raw)
+	return c, c
 }
 
 type gMismatch struct {
@@ -45,8 +56,9 @@ type gReport struct {
 }
 
 type graph struct {
-	cfg   json.RawMessage
-	init  string
+	cfg     json.RawMessage
+	initObs string
+	init    string
 	adj   map[string][]*gEdge
 	edges []*gEdge
 }
@@ -65,7 +77,7 @@ func loadGraph(t testing.TB, path string) *graph {
 		case "C":
 			g.cfg = line.V
 		case "I":
-			g.init = canon(line.V)
+			g.init, g.initObs = splitState(line.V)
 		case "T":
 			var tr struct {
 				From, To, Op, Res json.RawMessage
@@ -73,7 +85,9 @@ func loadGraph(t testing.TB, path string) *graph {
 			if err := json.Unmarshal(line.V, &tr); err != nil {
 				t.Fatal(err)
 			}
-			e := &gEdge{From: canon(tr.From), To: canon(tr.To), Op: tr.Op, Res: canon(tr.Res)}
+			e := &gEdge{Op: tr.Op, Res: canon(tr.Res)}
+			e.From, _ = splitState(tr.From)
+			e.To, e.ToObs = splitState(tr.To)
 			g.adj[e.From] = append(g.adj[e.From], e)
 			g.edges = append(g.edges, e)
 		}
@@ -140,8 +154,8 @@ func replayGraph(t testing.TB, path string, mk func(cfg json.RawMessage) (sut, e
 		}
 		cur = g.init
 		hist = nil
-		if got := canonV(obj.observe()); got != cur {
-			rep.Mismatches = append(rep.Mismatches, gMismatch{Op: json.RawMessage(`"construct"`), ExpObs: cur, GotObs: got, ShortPath: true})
+		if got := canonV(obj.observe()); got != g.initObs {
+			rep.Mismatches = append(rep.Mismatches, gMismatch{Op: json.RawMessage(`"construct"`), ExpObs: g.initObs, GotObs: got, ShortPath: true})
 		}
 	}
 	// step executes one edge on the current object; returns false on mismatch
@@ -160,8 +174,8 @@ func replayGraph(t testing.TB, path string, mk func(cfg json.RawMessage) (sut, e
 			e.covered = true
 			rep.Covered++
 		}
-		if err != nil || gotRes != e.Res || gotObs != e.To {
-			m := gMismatch{Path: append([]json.RawMessage{}, hist[:len(hist)-1]...), Op: e.Op, ExpRes: e.Res, GotRes: gotRes, ExpObs: e.To, GotObs: gotObs, Err: errs}
+		if err != nil || gotRes != e.Res || gotObs != e.ToObs {
+			m := gMismatch{Path: append([]json.RawMessage{}, hist[:len(hist)-1]...), Op: e.Op, ExpRes: e.Res, GotRes: gotRes, ExpObs: e.ToObs, GotObs: gotObs, Err: errs}
 			// try the shortest reproduction on a fresh object
 			sp := g.pathTo(g.init, func(s string) bool { return s == e.From })
 			if sp != nil {
@@ -178,7 +192,7 @@ func replayGraph(t testing.TB, path string, mk func(cfg json.RawMessage) (sut, e
 					}
 					if okPrefix {
 						r2, err3 := o2.applyRaw(e.Op)
-						if err3 != nil || canonV(r2) != e.Res || canonV(o2.observe()) != e.To {
+						if err3 != nil || canonV(r2) != e.Res || canonV(o2.observe()) != e.ToObs {
 							m.ShortPath = true
 							m.Path = ops
 							if err3 == nil {
